@@ -36,7 +36,8 @@ Delta(k) == FExp(LnDelta(k))
 
 \* Mach numbers in hundredths; 0.2 (m/100)^2 = m^2 * 20 micro-units
 Machs == {0, 40, 80, 95}
-Ffm2(k, m) == FExp(FMul(3800000, LnTheta(k, 0)) - LnDelta(k) + m * m * 20)
+Ffm2Z(k, m, z) == FExp(FMul(z, LnTheta(k, 0)) - LnDelta(k) + m * m * 20)      \* the exponent z of theta is a parameter (default 3.8)
+Ffm2(k, m) == Ffm2Z(k, m, 3800000)
 
 \* theta and delta are RATIOS to the sea-level reference the caller names: the same state in hPa and degrees Rankine
 \* with P_SL = 1013.25, T_SL = 518.67 gives the same factor (the harness evaluates both forms)
@@ -66,6 +67,7 @@ VARIABLES k, out
 avars == <<k, out>>
 Row(j) == [k |-> j, h |-> 500 * j, theta |-> ThetaIsa(j), delta |-> Delta(j),
            ffm2 |-> [m \in Machs |-> Ffm2(j, m)],
+           ffm2z33 |-> Ffm2Z(j, 80, 3300000),
            hcco |-> [d \in Offsets |-> HcCo(j, d)],
            nox |-> [d \in Offsets |-> NoxCorr(j, d)],
            hum |-> [d \in Offsets |-> Hum(j, d)]]
